@@ -26,6 +26,8 @@ type BroadcastMessage struct {
 	Content     []byte   `json:"Content"`
 	ContentHash [16]byte `json:"ContentHash"`
 	ConnId      string   `json:"ConnId"`
+	Protocol    int      `json:"Protocol"`
+	Database    int      `json:"Database"` // Logical database selected by the client whose command is forwarded.
 }
 
 // Invalidates Implements Broadcast interface
